@@ -676,8 +676,14 @@ class SQLiteStorage(SQLiteMixin):
                 content_claim = transaction.execute(
                     "select * from content_claim where stream_hash=?", (descriptor.stream_hash, )
                 ).fetchone()
+                mine = transaction.execute(  # re-storing the stream must not drop the ownership of its blobs
+                    "select blob_hash from blob where is_mine=1 and (blob_hash=? or blob_hash in "
+                    "(select blob_hash from stream_blob where stream_hash=?))",
+                    (sd_blob.blob_hash, descriptor.stream_hash)
+                ).fetchall()
                 delete_stream(transaction, descriptor)  # this will also delete the content claim
                 store_stream(transaction, sd_blob, descriptor)
+                transaction.executemany("update blob set is_mine=1 where blob_hash=?", mine).fetchall()
                 store_file(transaction, descriptor.stream_hash, os.path.basename(descriptor.suggested_file_name),
                            download_directory, 0.0, 'stopped', content_fee=content_fee)
                 if content_claim:
